@@ -424,8 +424,12 @@ func (s *httpServer) doPauseTopic(w http.ResponseWriter, req *http.Request, ps h
 	// pro-actively persist metadata so in case of process failure
 	// nsqd won't suddenly (un)pause a topic
 	s.nsqd.Lock()
-	s.nsqd.PersistMetadata()
+	err = s.nsqd.PersistMetadata()
 	s.nsqd.Unlock()
+	if err != nil {
+		s.nsqd.logf(LOG_ERROR, "failed to persist metadata - %s", err)
+		return nil, http_api.Err{500, "INTERNAL_ERROR"}
+	}
 	return nil, nil
 }
 
@@ -495,8 +499,12 @@ func (s *httpServer) doPauseChannel(w http.ResponseWriter, req *http.Request, ps
 	// pro-actively persist metadata so in case of process failure
 	// nsqd won't suddenly (un)pause a channel
 	s.nsqd.Lock()
-	s.nsqd.PersistMetadata()
+	err = s.nsqd.PersistMetadata()
 	s.nsqd.Unlock()
+	if err != nil {
+		s.nsqd.logf(LOG_ERROR, "failed to persist metadata - %s", err)
+		return nil, http_api.Err{500, "INTERNAL_ERROR"}
+	}
 	return nil, nil
 }
 
